@@ -10,18 +10,34 @@
  */
 
 #include <cmath>
+#include <type_traits>
 
 #include "common.hpp"
 
 SMOOTH_BEGIN_NAMESPACE
 
 namespace detail {
+
+/**
+ * @brief Squared argument above which the closed form of the order-n Taylor tail is used.
+ *
+ * The closed form loses digits by cancellation (relative error ~ eps n! / x^n), the three-term
+ * series has truncation error ~ x^6 n! / (n+6)!; the switch (eps (n+6)!)^(2/(n+6)) balances the two.
+ */
+template<typename S>
+constexpr double tail_switch(int n)
+{
+  constexpr double dbl[] = {0, 0, 1.4e-3, 4.9e-3, 1.3e-2, 3.0e-2, 6.1e-2};
+  constexpr double flt[] = {0, 0, 0.22, 0.43, 0.74, 1.17, 1.75};
+  return std::is_same_v<S, float> ? flt[n] : dbl[n];
+}
+
 template<typename S>
 S cos_2(const S & x2)
 {
   using std::cos, std::sqrt;
 
-  if (x2 > S(eps2)) {
+  if (x2 > S(tail_switch<S>(2))) {
     const S x = sqrt(x2);
     return (cos(x) - S(1)) / x2;
   } else {
@@ -34,7 +50,7 @@ S sin_3(const S & x2)
 {
   using std::sin, std::sqrt;
 
-  if (x2 > S(eps2)) {
+  if (x2 > S(tail_switch<S>(3))) {
     const S x = sqrt(x2);
     return (sin(x) - x) / (x2 * x);
   } else {
@@ -47,7 +63,7 @@ S cos_4(const S & x2)
 {
   using std::cos, std::sqrt;
 
-  if (x2 > S(eps2)) {
+  if (x2 > S(tail_switch<S>(4))) {
     const S x = sqrt(x2);
     return (cos(x) - S(1) + x2 / S(2)) / (x2 * x2);
   } else {
@@ -60,7 +76,7 @@ S sin_5(const S & x2)
 {
   using std::sin, std::sqrt;
 
-  if (x2 > S(eps2)) {
+  if (x2 > S(tail_switch<S>(5))) {
     const S x = sqrt(x2);
     return (sin(x) - x + x2 * x / 6) / (x2 * x2 * x);
   } else {
@@ -74,7 +90,7 @@ S cos_6(const S & x2)
   using std::cos, std::sqrt;
 
   const S x4 = x2 * x2;
-  if (x2 > S(eps2)) {
+  if (x2 > S(tail_switch<S>(6))) {
     const S x = sqrt(x2);
     return (cos(x) - S(1) + x2 / S(2) - x4 / S(24)) / (x4 * x2);
   } else {
